@@ -12,7 +12,7 @@ fn expect_events(s: u64, last: u64, chain: &[BlockSpec]) -> Vec<Event> {
 fn c02_delivered_heights_small_chains() {
     let suite = "c02_delivered_heights_small_chains";
     let mut cases = 0;
-    for tip in 0..=4u64 {
+    for tip in 0..=(if thorough() { 9u64 } else { 4 }) {
         let chain = make_chain(tip + 1, &mut |_| vec![]);
         let d = simple_dir(&chain);
         d.write();
@@ -40,7 +40,7 @@ fn c02_csvdump_file_names_and_slices() {
     use crate::callbacks::csvdump::CsvDump;
     let suite = "c02_csvdump_file_names_and_slices";
     let mut cases = 0;
-    for tip in 1..=3u64 {
+    for tip in 1..=(if thorough() { 6u64 } else { 3 }) {
         let chain = make_chain(tip + 1, &mut |_| vec![]);
         let d = simple_dir(&chain);
         d.write();
